@@ -1,24 +1,30 @@
 ---------------------------- MODULE CodecTrace ----------------------------
 (* Direction B for C19: what the real `conn::listen` read loop handed to a     *)
-(* MessageHandler, recorded by `h_codec record`, is accepted iff it is what    *)
-(* Codec.tla's machine (run silently on the recorded frame sequence, all bytes *)
-(* delivered) returns, minus what conn.rs keeps to itself (unknown types are   *)
-(* skipped, errors end the loop).  Header batches of one list and chunks of    *)
-(* one attachment are merged on both sides (grouping is free).                 *)
-EXTENDS Codec, Json, IOUtils
+(* MessageHandler and what it did to the socket, recorded by `h_codec record`, *)
+(* is accepted iff it is what CodecConn.tla's reader loop (run silently on the *)
+(* recorded frame sequence, all bytes delivered) hands over and does: unknown  *)
+(* types are skipped, an error result ends the loop and closes the socket -    *)
+(* nothing behind a refused frame is delivered, and the reader closes the      *)
+(* connection itself (before the writing peer ended the stream).  Header       *)
+(* batches of one list and chunks of one attachment are merged on both sides   *)
+(* (grouping is free).                                                         *)
+EXTENDS CodecConn, Json, IOUtils
 Rec == ndJsonDeserialize(IOEnv.TRACE)
 VARIABLES l, seen
-tvars == <<vars, l, seen>>
+tvars == <<cvars, l, seen>>
 
 E == Rec[l]
 IsEvent(k) == l <= Len(Rec) /\ Rec[l].k = k /\ l' = l + 1 /\ TLCSet(7, l + 1)
-Finished == done \/ halted
-\* what the handler gets to see
-Handed == SelectSeq(Norm(out), LAMBDA x : x.r \in {"msg", "headers", "att"})
+Finished == sock = "closed"
+\* what the handler gets to see (batches / chunks merged)
+Handed == Norm(handed)
+\* the loop ended on an error result other than the end of the stream
+Refused == \E j \in 1..Len(out) : out[j].r = "err" /\ out[j].why # "eof"
 
 TInit == /\ stream = <<>> /\ avail = 0 /\ pos = 0 /\ buf = 0 /\ pre = 0 /\ pend = 0 /\ nl = 0
          /\ st = NoneSt /\ pc = "call" /\ want = -1 /\ out = <<>> /\ halted = FALSE /\ done = TRUE
          /\ tmo = "body" /\ sil = FALSE
+         /\ proc = 0 /\ handed = <<>> /\ sock = "closed"
          /\ l = 1 /\ seen = 0 /\ TLCSet(7, 1)
 
 TReset == /\ IsEvent("Reset") /\ Finished
@@ -26,10 +32,11 @@ TReset == /\ IsEvent("Reset") /\ Finished
           /\ pos' = 0 /\ buf' = 0 /\ pre' = 0 /\ pend' = 0 /\ nl' = 0
           /\ st' = NoneSt /\ pc' = "call" /\ want' = -1 /\ out' = <<>> /\ halted' = FALSE /\ done' = FALSE
           /\ tmo' = "body" /\ sil' = FALSE
+          /\ proc' = 0 /\ handed' = <<>> /\ sock' = "open"
           /\ seen' = 0
 
-\* the machine of Codec.tla, unlogged
-TRun == ~Finished /\ Next /\ UNCHANGED <<l, seen>>
+\* the reader loop of CodecConn.tla, unlogged
+TRun == ~Finished /\ CNext /\ UNCHANGED <<l, seen>>
 
 TDeliver == /\ Finished /\ IsEvent("Deliver")
             /\ seen < Len(Handed)
@@ -37,13 +44,15 @@ TDeliver == /\ Finished /\ IsEvent("Deliver")
                /\ E.r = x.r /\ E.t = x.t /\ E.n = x.n /\ E.rem = x.rem
                /\ E.ok /\ x.ok
             /\ seen' = seen + 1
-            /\ UNCHANGED vars
+            /\ UNCHANGED cvars
 
-\* the loop ended (end of stream or refusal) after handing over everything, attachments on disk
+\* the loop ended (end of stream or refusal) after handing over everything, attachments on disk;
+\* after a refusal the reader itself closed the socket while the peer's side was still open
 TClosed == /\ Finished /\ IsEvent("Closed")
            /\ seen = Len(Handed)
            /\ E.closed /\ E.files_ok
-           /\ UNCHANGED <<vars, seen>>
+           /\ Refused => E.before_eof
+           /\ UNCHANGED <<cvars, seen>>
 
 TNext == TReset \/ TRun \/ TDeliver \/ TClosed
 TSpec == TInit /\ [][TNext]_tvars
